@@ -28,6 +28,7 @@ type Op struct {
 
 // Case is a set of per-goroutine programs (E3) or a flat op list with a schedule (E1).
 type Case struct {
+	Init  int    `json:"init,omitempty"` // LinkedList: number of initial elements passed to the constructor
 	List  bool   `json:"list"`
 	Progs [][]Op `json:"progs"`
 	Sched []byte `json:"sched,omitempty"`
@@ -43,6 +44,9 @@ func genOps(list bool, n int) *rapid.Generator[[]Op] {
 
 func genControlled(t *rapid.T) Case {
 	c := Case{List: rapid.IntRange(0, 3).Draw(t, "list") == 0}
+	if c.List {
+		c.Init = rapid.IntRange(0, 3).Draw(t, "init")
+	}
 	g := rapid.IntRange(2, ev.Pick(4, 6)).Draw(t, "g")
 	for i := 0; i < g; i++ {
 		c.Progs = append(c.Progs, genOps(c.List, ev.Pick(6, 10)).Draw(t, "ops"))
@@ -53,6 +57,9 @@ func genControlled(t *rapid.T) Case {
 
 func genFree(t *rapid.T) Case {
 	c := Case{List: rapid.IntRange(0, 2).Draw(t, "list") == 0}
+	if c.List {
+		c.Init = rapid.IntRange(0, 3).Draw(t, "init")
+	}
 	g := rapid.IntRange(2, ev.Pick(4, 6)).Draw(t, "g")
 	for i := 0; i < g; i++ {
 		c.Progs = append(c.Progs, rapid.SliceOfN(rapid.Custom(func(t *rapid.T) Op {
@@ -88,9 +95,17 @@ type histOp struct {
 func copyState(s []int) []int { return append([]int(nil), s...) }
 
 // model: LIFO state is a stack (top = last); list state is a deque (head = index 0).
-func model(list bool) porcupine.Model {
+func initVals(n int) []int {
+	out := make([]int, n)
+	for i := range out {
+		out[i] = 100000 + i
+	}
+	return out
+}
+
+func model(list bool, init int) porcupine.Model {
 	return porcupine.Model{
-		Init: func() interface{} { return []int{} },
+		Init: func() interface{} { return initVals(init) },
 		Step: func(state, in, out interface{}) (bool, interface{}) {
 			s := state.([]int)
 			i := in.(input)
@@ -155,7 +170,11 @@ func model(list bool) porcupine.Model {
 type subject struct {
 	list bool
 	lifo cqueue.AtomicLIFO[int]
-	ll   linkedlist.LinkedList[int]
+	ll   *linkedlist.LinkedList[int]
+}
+
+func newSubject(cs Case) *subject {
+	return &subject{list: cs.List, ll: linkedlist.NewLinkedList(initVals(cs.Init)...)}
 }
 
 func (s *subject) do(k string, v int) output {
@@ -189,12 +208,12 @@ func (s *subject) do(k string, v int) output {
 }
 
 // verdictFor checks linearizability and conservation of a complete history.
-func verdictFor(v *ev.Verdict, list bool, hist []histOp, remaining []int) {
+func verdictFor(v *ev.Verdict, list bool, init int, hist []histOp, remaining []int) {
 	ops := make([]porcupine.Operation, 0, len(hist))
 	for _, h := range hist {
 		ops = append(ops, porcupine.Operation{ClientId: h.client, Input: h.in, Call: h.call, Output: h.out, Return: h.rt})
 	}
-	res := porcupine.CheckOperationsTimeout(model(list), ops, 500*time.Millisecond)
+	res := porcupine.CheckOperationsTimeout(model(list, init), ops, 500*time.Millisecond)
 	switch res {
 	case porcupine.Illegal:
 		sort.Slice(hist, func(i, j int) bool { return hist[i].call < hist[j].call })
@@ -216,6 +235,9 @@ func verdictFor(v *ev.Verdict, list bool, hist []histOp, remaining []int) {
 	}
 	// conservation (no Reset in the history): pushed = popped + remaining, nothing twice
 	pushed := map[int]int{}
+	for _, x := range initVals(init) {
+		pushed[x]++
+	}
 	got := map[int]int{}
 	hasReset := false
 	for _, h := range hist {
@@ -285,7 +307,7 @@ func runControlled(t *testing.T, cs Case) *ev.Verdict {
 	var finalHist []histOp
 	var finalRem []int
 	c, berr := sched.Run(t, []string{"lifo.push.cas", "lifo.pop.cas"}, cs.Sched, func(c *sched.Ctl) {
-		s := &subject{list: cs.List}
+		s := newSubject(cs)
 		var clock atomic.Int64
 		var hm sync.Mutex
 		var hist []histOp
@@ -370,7 +392,7 @@ func runControlled(t *testing.T, cs Case) *ev.Verdict {
 	})
 	v.Trace = c.Trace()
 	if finalHist != nil && len(v.Viol) == 0 {
-		verdictFor(v, cs.List, finalHist, finalRem)
+		verdictFor(v, cs.List, cs.Init, finalHist, finalRem)
 	}
 	if berr != "" && len(v.Viol) == 0 {
 		v.Add(P, "lifo:leak", "bubble ended with blocked goroutines: %s", berr)
@@ -397,7 +419,7 @@ func runFree(t *testing.T, cs Case) *ev.Verdict {
 }
 
 func runFreeInner(cs Case, v *ev.Verdict) {
-	s := &subject{list: cs.List}
+	s := newSubject(cs)
 	var clock atomic.Int64
 	var wg sync.WaitGroup
 	hists := make([][]histOp, len(cs.Progs))
@@ -447,7 +469,7 @@ func runFreeInner(cs Case, v *ev.Verdict) {
 			}
 		}
 	}
-	verdictFor(v, cs.List, hist, drain(s))
+	verdictFor(v, cs.List, cs.Init, hist, drain(s))
 	if overlap {
 		v.SetNT(P)
 		v.Class("calls-overlapped-in-real-time")
